@@ -35,6 +35,7 @@ def run_case(case: dict) -> Result:
         return Result(discard=True)
     classes = set()
     hot: set[int] = set()
+    hot_tokens: set[int] = set()
     applied = 0
     through = False
     for op in case['ops']:
@@ -42,7 +43,7 @@ def run_case(case: dict) -> Result:
             a = OPS.resolve(root, op)
         except OPS.NotApplicable:
             continue
-        if a.P is not None and id(a.P) in hot:
+        if a.P is not None and (id(a.P) in hot or (a.family == 'tok' and id(a.P) in hot_tokens)):
             through = True
         popped = None
         try:
@@ -57,6 +58,12 @@ def run_case(case: dict) -> Result:
         classes.add('fam:' + a.family)
         for x in a.inserted:
             hot.update(id(m) for m, _ in O.walk(x) if isinstance(m, base.RawTreeModel))
+            hot_tokens.update(id(m) for m, _ in O.walk(x) if isinstance(m, base.RawTokenModel))
+        if a.family == 'tok' and through:
+            # end-to-end witness: an edit through a node that an earlier operation placed must show in the printed document
+            if a.P.raw_text not in O.print_text(root) or O.Order(root.token_store).ord(a.P) is None:
+                res.bad(f'edit-through-inserted-node-lost:{a.key()}', f'{op}: the edited token {a.P.raw_text!r} is not part of the printed document')
+                break
         bad = O.invariants(root)
         if bad:
             res.bad(f'{bad[0][0]}:{a.key()}', f'after {op}: {bad[:3]} ; document now {O.store_text(root.token_store)!r}')
@@ -90,7 +97,47 @@ def _build(tier: str):
     return build
 
 
+def _build_juggle(tier: str):
+    """Standalone comments inserted into body lists, then state-aware claim / unclaim walks between the neighbouring lists and models:
+    placeholders of sibling lists are shifted around the comments by every claim."""
+    from vf.props import c04
+    cfg = L.Cfg(max_dirs=2, comments=0.5, hazard_text=0.02, exotic=0.02)
+
+    def build(rnd: Any) -> dict:
+        g = L.G(rnd, cfg)
+        groups = [g.directive(g.pick(['transaction', 'transaction', 'transaction', 'open', 'note']))['lines'] for _ in range(g.n(1, 2))]
+        chunks = L.merge_comments([c for c in (g.join_lines(x) for x in groups) if c])
+        case = {'dirs': chunks, 'ops': []}
+        try:
+            root = common.parse_file(L.text_of(chunks))
+        except Exception:  # noqa: BLE001
+            return case
+        for _ in range(g.n(1, 3)):
+            cands = OPS.candidates(root, {'clist'})
+            cands = [c for c in cands if c[2] != 'File'] or cands
+            if not cands:
+                break
+            m, p, cname, mi = cands[g.n(0, len(cands) - 1)]
+            kind = 'BLOCK_COMMENT' if cname == 'File' else 'BLOCK_COMMENT_IND'
+            n = len(getattr(m, p.name))
+            op = {'f': 'list', 'cls': cname, 'mi': mi, 'prop': p.name, 'op': 'insert', 'i': g.pick([0, 0, n, n // 2]),
+                  'donors': [OPS.D.make(kind, g, indent=OPS.sibling_indent(m, p))]}
+            case['ops'].append(op)
+            try:
+                OPS.resolve(root, op).run()
+            except Exception:  # noqa: BLE001
+                case['ops'].pop()
+        for _ in range(g.n(1, 2)):
+            try:
+                case['ops'] += c04.pingpong_ops(g, root)
+            except Exception:  # noqa: BLE001
+                break
+        return case
+    return build
+
+
 def jobs(tier: str) -> list[Job]:
     return [Job('histories', 'hyp', lambda: _build(tier), 2500 if tier == 'quick' else 120000),
+            Job('comment-juggling', 'hyp', lambda: _build_juggle(tier), 1500 if tier == 'quick' else 60000),
             Job('list-sweep', 'enum', sweeps.list_sweep, exhaustive=True),
             Job('slot-sweep', 'enum', sweeps.slot_sweep, exhaustive=True)]
